@@ -168,9 +168,11 @@ OPAQUE = {
 }
 
 
-def run_region(prog, node, env, prims, depth=8, opaque=None):
+def run_region(prog, node, env, prims, depth=8, opaque=None, split_try=None):
     """interpret `node` (an expression) with the given environment; returns (interp, value, exit)"""
     I = WireInterp(prog, prims=prims, depth=depth, opaque=OPAQUE | (opaque or set()))
+    if split_try is not None:
+        I.split_try = split_try
     val = None
     ex = None
     try:
